@@ -42,6 +42,31 @@ def one(req):
         t.start()
         t.join()
         out.append(row)
+    if req.get("thread"):
+        # a worker that already existed - and had generated something - when the seed was set
+        import queue
+        import threading
+        inbox, done = queue.Queue(), queue.Queue()
+
+        def worker():
+            from d42 import schema
+            try:
+                fake(schema.list(schema.int))          # whatever the worker did before: unseeded
+            except Exception:  # noqa
+                pass
+            done.put("warm")
+            inbox.get()
+            row = []
+            generate(row)
+            done.put(row)
+
+        t = threading.Thread(target=worker)
+        t.start()
+        done.get()
+        Random().set_seed(seed)
+        inbox.put("go")
+        out.append(done.get())
+        t.join()
     return out
 
 
